@@ -214,6 +214,12 @@ def check_from_list(case, ev):
     for name, cls_, exp in (("integer_ndarray.from_list", pnd.integer_ndarray, exp_i),
                             ("boolean_ndarray.from_list", pnd.boolean_ndarray, exp_b)):
         arg = [list(r) for r in lst] if nested else list(lst)
+        # boolean_ndarray.from_list also takes its rows as tuples (its code says so explicitly; itertools.combinations
+        # and dict items produce such rows); a flat list may be handed over as a tuple as well when its first id is not one
+        if cls_ is pnd.boolean_ndarray and (len(str(lst)) + len(ctx)) % 3 == 0:
+            if nested:
+                arg = [tuple(r) for r in lst]
+                name = name + " (tuple rows)"
         r = call(cls_.from_list, arg, list(ctx), what=name)
         got_shape = tuple(int(x) for x in np.shape(r))
         got = np.asarray(r).tolist()
